@@ -96,6 +96,10 @@ var c01Snippets = []struct{ name, code string }{
 	{"for-variants", "\tk := 0\n\tfor k < 3 {\n\t\tk++\n\t\tif k == 2 {\n\t\t\tcontinue\n\t\t}\n\t\tacc += k\n\t}\n\tfor {\n\t\tk--\n\t\tif k < 0 {\n\t\t\tbreak\n\t\t}\n\t}\n\tfmt.Println(\"k\", k)\n"},
 	{"sprintf", "\tfmt.Println(fmt.Sprintf(\"%d-%s-%v\", 7, \"s\", true), fmt.Sprint(a))\n"},
 	{"any-nil-compare", "\tvar x any = a\n\tvar y any\n\tvar z any = p\n\tvar w any = \"s\"\n\tvar e error\n\tif x == nil {\n\t\tacc += 1\n\t}\n\tif x != nil {\n\t\tacc += 2\n\t}\n\tif y == nil {\n\t\tacc += 4\n\t}\n\tif z != nil {\n\t\tacc += 8\n\t}\n\tif w != nil {\n\t\tacc += 16\n\t}\n\tif e == nil {\n\t\tacc += 32\n\t}\n\ty = f\n\tif y != nil {\n\t\tacc += 64\n\t}\n\tfmt.Println(\"any\", x, z, w)\n"},
+	{"strings-edge", "\tfmt.Println(len(strings.TrimSpace(\" \\t\\r\\n x y \\v\\f\\n\")), strings.TrimSpace(\"\\u00a0z\\u2003\") == \"z\", strings.TrimRight(\"xaab\", \"ab\"), strings.TrimRight(\"abc\", \"\"), strings.TrimSuffix(\"a.go.go\", \".go\"), strings.TrimSuffix(\"a\", \"abc\"))\n\tfmt.Println(len(strings.Split(\"a,b,,c\", \",\")), len(strings.Split(\"abc\", \"\")), len(strings.Split(\"\", \",\")), strings.Join([]string{}, \"-\"), strings.Join([]string{\"a\"}, \"--\"), strings.Repeat(\"ab\", 0) == \"\", strings.Contains(\"\", \"\"), strings.Contains(\"abc\", \"\"))\n\tfmt.Println(strings.Replace(\"aaaa\", \"a\", \"b\", 2), strings.Replace(\"aaaa\", \"a\", \"b\", -1), strings.Replace(\"aaaa\", \"\", \"-\", 2), strings.ReplaceAll(\"abab\", \"ab\", \"\"), strings.ReplaceAll(\"héé\", \"é\", \"e\"))\n\tacc += len(strings.Split(\"x\\r\\ny\\r\\n\", \"\\n\"))\n"},
+	{"strconv-edge", "\tv1, e1 := strconv.ParseInt(\"-80000000\", 16, 32)\n\tv2, e2 := strconv.ParseInt(\"zz\", 36, 32)\n\tv3, e3 := strconv.ParseInt(\"12a\", 10, 32)\n\tv4, e4 := strconv.ParseFloat(\"1e3\", 64)\n\tv5, e5 := strconv.ParseFloat(\"-.5\", 64)\n\t_, e6 := strconv.ParseFloat(\"x\", 64)\n\tfmt.Println(v1, e1 == nil, v2, e2 == nil, v3, e3 == nil, v4, e4 == nil, v5, e5 == nil, e6 == nil)\n\tfmt.Println(strconv.Itoa(-2147483648), strconv.Itoa(0), strconv.FormatInt(-255, 16), strconv.FormatInt(35, 36), strconv.FormatInt(-8, 2), strconv.FormatFloat(1.5, 'f', 2, 64), strconv.FormatFloat(1e21, 'g', -1, 64), strconv.FormatFloat(0.000001, 'e', 3, 64), strconv.FormatFloat(2.5, 'f', 0, 64))\n"},
+	{"math-edge", "\tz := f - f\n\tfmt.Println(math.Mod(-7, 3), math.Mod(7, -3), math.Mod(5.5, 2), math.Pow(2, 10), math.Pow(2, -1), math.Pow(0, 0), math.Round(2.5), math.Round(-2.5), math.Round(0.49999999999999994), math.Floor(-0.5), math.Ceil(-0.5), math.Abs(-1.5), math.Signbit(-2.5), math.Signbit(z), math.Hypot(3, 4), math.Sqrt(2) > 1.41, math.Max(3, 7), math.Min(3, 7), math.Log(1), math.Atan(0))\n"},
+	{"sprintf-edge", "\tfmt.Println(fmt.Sprintf(\"%5d|%-5d|%05d|%x|%X|%c|%q|%v|%s|%t|%%\", 42, 42, 42, 255, 255, 65, \"hi\", 3, \"s\", true), fmt.Sprintf(\"%6.2f|%.0f|%e|%g|%8.3f\", 3.14159, 2.5, 1234.5678, 1e21, -1.5), fmt.Sprintf(\"%d %s\", 1, \"a\") + fmt.Sprintf(\"%v\", []int{1, 2}))\n"},
 	{"float-conv", "\th := float64(a)/2 + 0.25\n\tfmt.Println(\"h\", h, int(math.Floor(h)), float64(c)*1.5)\n"},
 }
 
